@@ -22,10 +22,11 @@ const (
 	srcStutter            // Read only; every other call answers (0, nil) before handing out data
 	srcEOFLast            // Read only; reports io.EOF together with the final bytes of the stream
 	srcLimited            // *io.LimitedReader over a *bytes.Reader that holds three more bytes behind the limit
+	srcReentrant          // Read only, one byte per call; after filling p it decodes a VarLong and a VarInt from a stream of its own
 	nSrc
 )
 
-var srcNames = [nSrc]string{"bytereader", "plain", "bytes.Buffer", "bufio.Reader", "plain-zero-reads", "plain-eof-with-last-byte", "io.LimitedReader"}
+var srcNames = [nSrc]string{"bytereader", "plain", "bytes.Buffer", "bufio.Reader", "plain-zero-reads", "plain-eof-with-last-byte", "io.LimitedReader", "reentrant-one-byte-reader"}
 
 func srcIndex(name string) int {
 	for i, n := range srcNames {
@@ -102,6 +103,42 @@ type sources struct {
 	lbuf []byte
 	lbr  bytes.Reader
 	lr   io.LimitedReader
+
+	rr reentrantReader
+}
+
+// reentrantReader is a legal io.Reader (it fills p and does not retain it) that uses the decoder under test itself, on a
+// stream of its own, before it returns: a multiplexing layer that looks at the next frame header while it hands out a
+// byte. A decoder that parks the byte it just read in package-level or pooled scratch space has it overwritten in that
+// window - deterministically, where two goroutines decoding at once would need the right interleaving.
+type reentrantReader struct {
+	data  []byte
+	pos   int
+	inner engine.PlainReader
+	busy  bool
+}
+
+var reentrantInner = []byte{0xff, 0xff, 0xff, 0xff, 0xff, 0xff, 0xff, 0xff, 0xff, 0x01, 0xac, 0x02}
+
+func (r *reentrantReader) Read(p []byte) (int, error) {
+	if len(p) == 0 {
+		return 0, nil
+	}
+	if r.pos >= len(r.data) {
+		return 0, io.EOF
+	}
+	p[0] = r.data[r.pos]
+	r.pos++
+	if !r.busy {
+		r.busy = true
+		r.inner.Data, r.inner.Pos = reentrantInner, 0
+		var l pk.VarLong
+		var i pk.VarInt
+		l.ReadFrom(&r.inner)
+		i.ReadFrom(&r.inner)
+		r.busy = false
+	}
+	return 1, nil
 }
 
 // open points source kind src at stream and returns the reader to hand to go-mc.
@@ -131,6 +168,9 @@ func (s *sources) open(src int, stream []byte) io.Reader {
 	case srcEOFLast:
 		s.er = eofReader{data: stream}
 		return &s.er
+	case srcReentrant:
+		s.rr = reentrantReader{data: stream}
+		return &s.rr
 	case srcLimited:
 		s.lbuf = append(append(s.lbuf[:0], stream...), 0x01, 0x02, 0x03)
 		s.lbr.Reset(s.lbuf)
@@ -156,6 +196,8 @@ func (s *sources) consumed(src int, stream []byte) int {
 		return s.sr.pos
 	case srcEOFLast:
 		return s.er.pos
+	case srcReentrant:
+		return s.rr.pos
 	case srcLimited:
 		return len(s.lbuf) - s.lbr.Len() // counts guard bytes taken from behind the limit too
 	}
